@@ -208,7 +208,7 @@ fn random_faults(seed: u64, thorough: bool, rep: &Report) -> Result<(), String> 
         } else {
             *rng.pick(&all)
         };
-        let kind = *rng.pick(&["down", "accept_hang", "hang_on_query", "hc_hang", "close_mid_reply", "slow", "admin_ban", "admin_ban_unban"]);
+        let kind = *rng.pick(&["down", "accept_hang", "hang_on_query", "hc_hang", "hc_hang", "close_mid_reply", "slow", "admin_ban", "admin_ban_unban"]);
         let ctl = lay.cell.mocks[target].ctl.clone();
         let t_on = now_ns();
         match kind {
@@ -241,7 +241,7 @@ fn random_faults(seed: u64, thorough: bool, rep: &Report) -> Result<(), String> 
             _ => {}
         }
         // sample SHOW BANS while the fault is on
-        let hold = rng.range(300, 1200);
+        let hold = if kind == "hc_hang" { rng.range(800, 1400) } else { rng.range(300, 1200) };
         let t_end = now_ns() + hold * 1_000_000;
         while now_ns() < t_end {
             if let Ok(rows) = admin_rows(&mut adm, "SHOW BANS") {
@@ -331,6 +331,31 @@ fn random_faults(seed: u64, thorough: bool, rep: &Report) -> Result<(), String> 
     }
     let fault_active = |m: usize, a: u64, b: u64| faults.iter().any(|f| f.mock == m && f.t_on <= b && a <= f.t_off);
     let admin_touched = |m: usize, a: u64, b: u64| admins.iter().any(|x| x.mock == m && x.t_sent <= b && a <= x.t_done + 4_000_000_000);
+    // (h) a replica whose pre-use health check got no answer for the whole health-check timeout is banned
+    for e in lay.cell.log.snapshot() {
+        if let Ev::MockMsg { b, typ, bytes, .. } = &e.ev {
+            if *typ == b'Q' && lay.replicas.contains(b) && bytes.len() >= 7 && &bytes[5..bytes.len() - 1] == b";" {
+                let t_hc = e.t;
+                let hung_throughout = faults.iter().any(|f| f.mock == *b && f.kind == "hc_hang" && f.t_on <= t_hc && f.t_off >= t_hc + (HC_MS + 300) * 1_000_000);
+                if hung_throughout && t_hc + (HC_MS + 1500) * 1_000_000 < t_end {
+                    rep.count("health_checks_left_unanswered", 1);
+                    let banned = ban_events.iter().any(|x| x.1 == *b && x.0 + 50_000_000 >= t_hc && x.0 <= t_hc + (HC_MS + 1500) * 1_000_000);
+                    // (already banned: nothing new to record)
+                    let already = ban_events.iter().any(|x| x.1 == *b && x.0 < t_hc && x.0 + lay.ban_time * 1_000_000_000 > t_hc);
+                    if !banned && !already {
+                        rep.violation(
+                            "C07|replica_with_unanswered_health_check_was_not_banned",
+                            &format!("{} received the pre-use health check at t={} and did not answer it for more than the health-check timeout ({} ms); no ban followed", labels[*b], t_hc, HC_MS),
+                            json!({"seed": seed, "faults": faults.iter().map(|f| format!("{} {} [{}..{}]", labels[f.mock], f.kind, f.t_on, f.t_off)).collect::<Vec<_>>(),
+                                   "bans": ban_events.iter().map(|b| format!("{} {} {}", b.0, labels[b.1], b.2)).collect::<Vec<_>>()}),
+                        );
+                    } else {
+                        rep.count("unanswered_health_checks_followed_by_ban", 1);
+                    }
+                }
+            }
+        }
+    }
     let bound_ms = 10 * (CONNECT_MS + HC_MS + STMT_MS) + 3000;
     let margin = (lay.ban_time + 2) * 1_000_000_000;
     let wit = |t: &Txn| {
@@ -651,7 +676,7 @@ pub fn run(tier: &str) -> i32 {
         "C07",
         tier,
         "fault_enumeration",
-        "random leg: shards with 1-3 replicas, with/without primary, both load-balancing modes, health check always/never, 6-14 looping clients with role any/primary/replica, fault scripts of 1-6 steps over {down, accept-and-hang, hang on query, health-check hang, close mid-reply, slow, admin BAN, BAN+UNBAN}; oracles on the mock log, client outcomes/latencies, pgcat ban hook events and SHOW BANS samples, with happens-before margins; scripted leg: admin BAN / UNBAN / all-banned => unban-all / ban expiry / primary never banned; distinct = distinct (layout, fault kinds) scripts",
+        "random leg: shards with 1-3 replicas, with/without primary, both load-balancing modes, health check always/never, 6-14 looping clients with role any/primary/replica, fault scripts of 1-6 steps over {down, accept-and-hang, hang on query, health-check hang, close mid-reply, slow, admin BAN, BAN+UNBAN}; oracles on the mock log (incl. every health check left unanswered beyond its timeout must be followed by a ban), client outcomes/latencies, pgcat ban hook events and SHOW BANS samples, with happens-before margins; scripted leg: admin BAN / UNBAN / all-banned => unban-all / ban expiry / primary never banned; distinct = distinct (layout, fault kinds) scripts",
     );
     rep.assume("a statement is judged against a ban only if sent >20 ms after pgcat's ban hook event and before ban_time elapsed, with no UNBAN and not all replicas banned");
     rep.assume("an error is excused only if the statement reached a server that had a fault active, or no candidate of the requested role was continuously healthy and untouched for ban_time+2 s before");
@@ -677,5 +702,6 @@ pub fn run(tier: &str) -> i32 {
         ("statements_sent_during_a_ban", 50),
         ("unban_all_events", 3),
         ("ban_expiries_observed", 3),
+        ("health_checks_left_unanswered", 1),
     ])
 }
